@@ -109,3 +109,15 @@ EVIDENCE = {
         "code points that only the Unicode-aware meaning of \\d \\s \\w adds are not compared when that shorthand occurs in the emitted text",
     ],
 }
+
+
+SYSTEMATIC = cc.systematic_constructors()
+
+
+def generate_indexed(index, run_seed, tier):
+    """The first len(SYSTEMATIC) run indices are an enumerated family of boundary cases; the rest is seeded sampling."""
+    if index < len(SYSTEMATIC):
+        cf = stream(run_seed, "order")
+        return {"property": PROPERTY, "program": SYSTEMATIC[index],
+                "config": {"order_keys": cc.order_keys(cf, 6 if tier == "quick" else 10), "systematic": True}}
+    return generate(run_seed, tier)
